@@ -92,7 +92,7 @@ func (v *FnVerifier) encVal(term string, t types.Type) string {
 	ax := fmt.Sprintf("(forall ((x %s)) (! (= (%s (%s x)) x) :pattern ((%s x))))", s, dec, enc, enc)
 	if !v.smt.ufs[ax] {
 		v.smt.ufs[ax] = true
-		v.smt.assert(ax)
+		v.smt.axiom(ax)
 	}
 	return app(enc, term)
 }
@@ -151,6 +151,7 @@ func readErrTerm(v *FnVerifier, st *State, ok string) string {
 	errT := v.smt.fresh("rd.err", "Iface")
 	v.smt.assert(v.closedFact(errT, types.Universe.Lookup("error").Type(), v.alloc(st), 0))
 	v.smt.assert(eq(ok, eq(errT, "(mk-iface 0 0)")))
+	v.notRepoSentinel(errT)
 	return errT
 }
 
@@ -465,7 +466,7 @@ func (v *FnVerifier) bsorFuns() (enc, dec, valid, blen string) {
 	ax := fmt.Sprintf("(forall ((a Int)) (! (and (= (%s (%s a)) a) (%s (%s a)) (>= (%s (%s a)) 0)) :pattern ((%s a))))", dec, enc, valid, enc, blen, enc, enc)
 	if !v.smt.ufs[ax] {
 		v.smt.ufs[ax] = true
-		v.smt.assert(ax)
+		v.smt.axiom(ax)
 	}
 	return
 }
@@ -619,24 +620,6 @@ func isFlatStruct(t types.Type) bool {
 }
 
 func init() {
-	hostile := func(fr *Frame, st *State, c *ssa.CallCommon, args []Val, res ssa.Value) Val {
-		// a stream over arbitrary bytes: any tokens; read position 0
-		v := fr.v
-		r := v.newRef(st, "stream")
-		_, sn, sp := v.streamKeys()
-		n := v.smt.fresh("stream.n", "Int")
-		v.smt.assert("(>= " + n + " 0)")
-		v.setHeap(st, sn, sto(v.heap(st, sn), r, n))
-		v.setHeap(st, sp, sto(v.heap(st, sp), r, "0"))
-		// the number of tokens and every allocation the decoder derives from them are limited by the input length
-		budget := v.heap(st, v.ghostKey("inputBudget", "Int"))
-		b := fr.term(st, c.Args[0])
-		v.smt.assert("(<= (s.len " + b + ") " + budget + ")")
-		fr.setResult(res, Val{T: r})
-		return Val{T: r}
-	}
-	reg("bytes.NewBuffer", "a stream over the given bytes: token content unconstrained (hostile input), length <= input budget", streamMods, hostile)
-	reg("bytes.NewReader", "a stream over the given bytes: token content unconstrained (hostile input), length <= input budget", streamMods, hostile)
 	bufRead := func(fr *Frame, st *State, c *ssa.CallCommon, args []Val, res ssa.Value) Val {
 		// in-memory reader: fills p completely when that many bytes remain (one Bytes token of that length), else reads short
 		v := fr.v
@@ -680,11 +663,6 @@ func init() {
 		v.writeTok(st, id, "true", fmt.Sprint(tkBytes), payload)
 		out := Val{Tuple: []Val{{T: "(s.len " + b + ")"}, {T: "(mk-iface 0 0)"}}}
 		fr.setResult(res, out)
-		return out
-	})
-	reg("(*bytes.Buffer).Len", "opaque non-negative length", nil, func(fr *Frame, st *State, c *ssa.CallCommon, args []Val, res ssa.Value) Val {
-		out := fr.freshResult(st, c, res)
-		fr.v.smt.assert("(>= " + out.T + " 0)")
 		return out
 	})
 }
